@@ -41,11 +41,18 @@ def run(chk, binary):
             bk = D.py_backup(nm)
             if all(x != bk for x, _ in files + extra):
                 extra.append((bk, b"stale backup from an earlier run\n"))
-        sc = {"files": files + extra, "unnamed": [e[0] for e in extra], "opts": opts, "cmds": cmds, "stdin": None}
+        # the options in any order (the model sees them in the canonical one): --backup before -i is the same request
+        units = [[x] for x in opts if x not in ("-d", ",")] + ([["-d", ","]] if "-d" in opts else [])
+        rng.shuffle(units)
+        shuffled = [x for u in units for x in u]
+        # the same path named twice, another file in between, is one file
+        dup = [files[0][0]] if len(files) >= 2 and rng.random() < 0.2 else []
+        sc = {"files": files + extra, "unnamed": [e[0] for e in extra], "opts": shuffled, "model_opts": opts, "cmds": cmds, "stdin": None, "extra_args": dup}
         scs.append(sc)
         # the twin without -i
-        scs.append({"files": files + extra, "unnamed": [e[0] for e in extra], "opts": [x for x in opts if x not in ("-i", "--backup")],
-                    "cmds": cmds, "stdin": None})
+        tw_opts = [x for x in opts if x not in ("-i", "--backup")]
+        scs.append({"files": files + extra, "unnamed": [e[0] for e in extra], "opts": [x for x in shuffled if x not in ("-i", "--backup")], "model_opts": tw_opts,
+                    "cmds": cmds, "stdin": None, "extra_args": dup})
     obs = D.scenarios_map(binary, scs)
     cases = [D.model_case(sc, ob) for sc, ob in zip(scs, obs)]
     model = D.eval_model("c05", cases)
@@ -53,7 +60,7 @@ def run(chk, binary):
     for k in range(0, len(scs), 2):
         sc, ob, m = scs[k], obs[k], model[k]
         tw, tob, tm = scs[k + 1], obs[k + 1], model[k + 1]
-        mode = " ".join(x for x in sc["opts"] if x.startswith("--")) or "default"
+        mode = " ".join(x for x in sc["model_opts"] if x.startswith("--")) or "default"
         dist[mode] = dist.get(mode, 0) + 1
         edited = any(ob["final"].get(nm) != data for nm, data in sc["files"])
         chk.count(("c05", tuple(ob["argv"]), tuple(sc["files"])), nontrivial=edited)
